@@ -13,7 +13,7 @@ cd $WT
 for f in $SRC/*_test.go; do cp $f $DEST/; done
 echo "--- demo WITHOUT patch"; go test -vet=off -count=1 "$@" > /tmp/seedwt-$ID-$K.without.log 2>&1; R0=$?; tail -3 /tmp/seedwt-$ID-$K.without.log
 git apply $SRC/patch.diff || { echo "PATCH DOES NOT APPLY"; git -C /repo worktree remove --force $WT; exit 2; }
-PKGS=$(git diff --name-only -- "*.go" | xargs -n1 dirname | sort -u | while read d; do if grep -qx "github.com/tikv/pd/$d" /tmp/seed/STABLE_TEST_PACKAGES.txt; then echo "./$d"; fi; done)
+PKGS=$(git diff --name-only -- "*.go" | xargs -n1 dirname | sort -u | while read d; do if grep -qx "github.com/tikv/pd/$d" /verif/tools/STABLE_TEST_PACKAGES.txt; then echo "./$d"; fi; done)
 [ -z "$PKGS" ] && PKGS=./pkg/slice
 echo "--- build"; go build ./server/... ./pkg/... ./client/... 2>&1 | grep -v "uiserver\|scheduler_example" | tail -3
 echo "--- demo WITH patch"; go test -vet=off -count=1 "$@" > /tmp/seedwt-$ID-$K.with.log 2>&1; R1=$?; tail -5 /tmp/seedwt-$ID-$K.with.log
